@@ -73,7 +73,7 @@ class URI(Signature):
 
     @uri.register(bytearray)
     def uri_bytearray(self, val):
-        self.uri = val.decode('latin-1')
+        self.uri = self._decode_text(val)
 
     def __init__(self):
         super(URI, self).__init__()
@@ -424,7 +424,7 @@ class RegularExpression(Signature):
 
     @regex.register(bytearray)
     def regex_bytearray(self, val):
-        self.regex = val.decode('latin-1')
+        self.regex = self._decode_text(val)
 
     def __init__(self):
         super(RegularExpression, self).__init__()
@@ -637,7 +637,7 @@ class NotationData(Signature):
 
     @name.register(bytearray)
     def name_bytearray(self, val):
-        self.name = val.decode('latin-1')
+        self.name = self._decode_text(val)
 
     @sdproperty
     def value(self):
@@ -651,7 +651,7 @@ class NotationData(Signature):
     @value.register(bytearray)
     def value_bytearray(self, val):
         if NotationDataFlags.HumanReadable in self.flags:
-            self.value = val.decode('latin-1')
+            self.value = self._decode_text(val)
 
         else:  # pragma: no cover
             self._value = val
@@ -769,7 +769,7 @@ class SignersUserID(Signature):
 
     @userid.register(bytearray)
     def userid_bytearray(self, val):
-        self.userid = val.decode('latin-1')
+        self.userid = self._decode_text(val)
 
     def __init__(self):
         super(SignersUserID, self).__init__()
@@ -813,7 +813,7 @@ class ReasonForRevocation(Signature):
 
     @string.register(bytearray)
     def string_bytearray(self, val):
-        self.string = val.decode('latin-1')
+        self.string = self._decode_text(val)
 
     def __init__(self):
         super(ReasonForRevocation, self).__init__()
